@@ -955,14 +955,30 @@ namespace riddle
         {
             tk = next();
 
+            // we look ahead: a cast is a (qualified) type name followed by ')' and by the beginning of the expression to cast..
             size_t c_pos = pos;
-            do
-            {
-                if (!match(ID_ID))
-                    error("expected identifier..");
-            } while (match(DOT_ID));
+            bool is_cast = match(ID_ID);
+            while (is_cast && match(DOT_ID))
+                is_cast = match(ID_ID);
+            if (is_cast && match(RPAREN_ID))
+                switch (tk->sym)
+                {
+                case ID_ID:
+                case LPAREN_ID:
+                case NEW_ID:
+                case BANG_ID:
+                case BoolLiteral_ID:
+                case IntLiteral_ID:
+                case RealLiteral_ID:
+                case StringLiteral_ID:
+                    break;
+                default: // a parenthesised (qualified) identifier, e.g., '(x) + 1' or '((x))'..
+                    is_cast = false;
+                }
+            else
+                is_cast = false;
 
-            if (match(RPAREN_ID)) // a cast..
+            if (is_cast) // a cast..
             {
                 backtrack(c_pos);
                 std::vector<id_token> ids;
